@@ -8,7 +8,7 @@ import typing as t
 
 from .load import AnalysisError, Cls, Func, Repo, strip_docstring, unparse  # noqa: F401
 from .sym import Lin, Ref, SBytes, Seg, SObj, SStr, STuple, Unknown
-from .symeval import BoolVal, Evaluator, Read, ReadVal, State, SView, TRef, Unsupported, parse_type, typed_value
+from .symeval import BSlice, CallVal, BoolVal, Evaluator, Read, ReadVal, State, SView, TRef, Unsupported, parse_type, typed_value
 
 
 class NeedFork(Exception):
@@ -156,6 +156,12 @@ class Interp:
             st.env[target.id] = value
         elif isinstance(target, (ast.Tuple, ast.List)):
             items = value.items if isinstance(value, STuple) else (value if isinstance(value, list) else None)
+            if isinstance(value, CallVal):
+                items = []
+                for i in range(len(target.elts)):
+                    u = Unknown(f"{value!r}[{i}]")
+                    u._elem_of = (value.rec, i)  # type: ignore[attr-defined]
+                    items.append(u)
             if items is None or len(items) != len(target.elts):
                 for el in target.elts:
                     self.assign(el, Unknown(unparse(node)), st, node)
@@ -164,7 +170,7 @@ class Interp:
                     self.assign(el, it, st, node)
         elif isinstance(target, ast.Subscript):
             base = self.ev.eval(target.value, st)
-            idx = self.ev.eval(target, st) if isinstance(base, SView) and isinstance(target.slice, ast.Slice) else unparse(target.slice)
+            idx = self.ev.eval(target, st) if isinstance(base, (SView, SBytes, BSlice)) and isinstance(target.slice, ast.Slice) else unparse(target.slice)
             st.stores.append((base, idx, value, node))
         elif isinstance(target, ast.Attribute):
             st.setattrs.append((unparse(target), "=", value))
